@@ -120,8 +120,6 @@ func (c *FenceConn) BeginTx(ctx context.Context, opts driver.TxOptions) (driver.
 		return tx, nil
 	}
 
-	tm.SetFenceTxBeginedFlag(ctx, true)
-
 	fenceTx, err := c.TargetDB.BeginTx(ctx, &sql.TxOptions{})
 	if err != nil {
 		if rollbackErr := tx.Rollback(); rollbackErr != nil {
@@ -151,6 +149,10 @@ func (c *FenceConn) BeginTx(ctx context.Context, opts driver.TxOptions) (driver.
 	if err = WithFence(ctx, fenceTx, emptyCallback); err != nil {
 		return nil, err
 	}
+
+	// only now is a fence transaction open on this context: a begin that failed above must leave the
+	// flag alone, database/sql retries a begin that failed with a bad connection on the same context
+	tm.SetFenceTxBeginedFlag(ctx, true)
 
 	return &FenceTx{
 		Ctx:           ctx,
